@@ -150,7 +150,10 @@ def _conc_value(v):
 
 def _frame_is_concrete(frame):
     for klass in type(frame).__mro__:
-        for name in getattr(klass, '__slots__', ()):
+        slots = getattr(klass, '__slots__', ())
+        if isinstance(slots, str):          # e.g. RequestNFrame.__slots__ = 'request_n'
+            slots = (slots,)
+        for name in slots:
             if isinstance(name, str) and hasattr(frame, name):
                 if not _conc_value(getattr(frame, name)):
                     return False
